@@ -13,6 +13,7 @@ Open Scope Z_scope.
 Definition u8 (x : Z) := x mod 256.
 Definition u16 (x : Z) := x mod 65536.
 Definition u32 (x : Z) := x mod 4294967296.
+Definition s32 (x : Z) : Z := let y := u32 x in if y <? 2147483648 then y else y - 4294967296.   (* a uint32_t read as int *)
 
 (* ------------------------------------------------------------------ firmware *)
 
@@ -91,6 +92,107 @@ Definition fw_rows_within (task : Z) (allowed : list (Z*Z)) : bool :=
   end.
 
 Definition fw_task_chan_nr (task tn : Z) : Z := nth (Z.to_nat tn) (nth (Z.to_nat task) fw_chan_nr []) (-1).
+
+(* ------------------------------------------------------------------ firmware: the scheduler state and its operations
+   struct mframe_scheduler { uint32_t tasks, tasks_tgt, safe_fn; }: tasks_tgt is what L1A asked for (mframe_enable / mframe_disable /
+   mframe_set), tasks is what is scheduled; new tasks are taken over only when no DSP command of an earlier set is in flight
+   (the current frame has reached safe_fn), disabled ones are dropped at once.
+   C integers: `int fn_diff = safe_fn - current_time.fn` is the 32-bit difference read as int; `-1UL` stored in safe_fn is 2^32-1;
+   ADD_MODULO(fn, rv - 2, GSM_MAX_FN) on a uint32_t: fn += rv - 2 (mod 2^32); if (fn >= GSM_MAX_FN) fn -= GSM_MAX_FN;
+   rv = what tdma_schedule_set() returns = the number of frames of the set (Gen fw_set_frames; a bucket overflow, -1, is C08's subject). *)
+
+Record mfst := mkmf { ms_tasks : Z; ms_tgt : Z; ms_safe : Z }.
+
+Definition mf_reset : mfst := mkmf 0 0 4294967295.
+Definition mf_enable (t : Z) (s : mfst) : mfst := mkmf (ms_tasks s) (u32 (Z.lor (ms_tgt s) (Z.shiftl 1 t))) (ms_safe s).
+Definition mf_disable (t : Z) (s : mfst) : mfst := mkmf (ms_tasks s) (Z.ldiff (ms_tgt s) (Z.shiftl 1 t)) (ms_safe s).
+Definition mf_set (m : Z) (s : mfst) : mfst := mkmf (ms_tasks s) (u32 m) (ms_safe s).
+
+(* (fn_diff <= 0) || (fn_diff >= (GSM_MAX_FN>>1)) || (safe_fn >= GSM_MAX_FN) *)
+Definition mf_safe_test (cur : Z) (s : mfst) : bool :=
+  let d := s32 (ms_safe s - cur) in
+  (d <=? 0) || (d >=? Z.shiftr fw_GSM_MAX_FN 1) || (ms_safe s >=? fw_GSM_MAX_FN).
+
+(* tasks = tasks_tgt when safe, else tasks &= tasks_tgt *)
+Definition mf_tasks_after (cur : Z) (s : mfst) : Z :=
+  if mf_safe_test cur s then ms_tgt s else Z.land (ms_tasks s) (ms_tgt s).
+
+Definition set_rv (kind : Z) : Z := nth (Z.to_nat kind) fw_set_frames 0.
+
+Definition add_modulo (sum delta m : Z) : Z := let x := u32 (sum + delta) in if x >=? m then u32 (x - m) else x.
+
+(* mframe_schedule_set() after one tdma_schedule_set() call: fn = current fn (+) (rv - 2);
+   if (safe_fn >= GSM_MAX_FN || (fn != safe_fn && ((fn + GSM_MAX_FN - safe_fn) % GSM_MAX_FN) < (GSM_MAX_FN >> 1))) safe_fn = fn; *)
+Definition safe_upd (cur : Z) (safe : Z) (c : call) : Z :=
+  let '(_, kind, _) := c in
+  let fn := add_modulo (u32 cur) (set_rv kind - 2) fw_GSM_MAX_FN in
+  if (safe >=? fw_GSM_MAX_FN) ||
+     (negb (fn =? safe) && (u32 (fn + fw_GSM_MAX_FN - safe) mod fw_GSM_MAX_FN <? Z.shiftr fw_GSM_MAX_FN 1))
+  then fn else safe.
+
+(* mframe_schedule() at current frame cur: the tdma_schedule_set() calls (exactly those of the per-tick core fw_mframe_schedule with
+   the task mask after the update) and the state afterwards; safe_fn is only read by its own update, so folding the update over the
+   calls in order is the interleaving of the code *)
+Definition mf_schedule (cur : Z) (s : mfst) : fwres * mfst :=
+  let t := mf_tasks_after cur s in
+  match fw_mframe_schedule t cur with
+  | FwOk cs => (FwOk cs, mkmf t (ms_tgt s) (fold_left (safe_upd cur) cs (ms_safe s)))
+  | e => (e, mkmf t (ms_tgt s) (ms_safe s))
+  end.
+
+(* histories of requests and ticks *)
+Inductive mfop := OpEnable (t : Z) | OpDisable (t : Z) | OpSet (m : Z) | OpReset | OpTick (cur : Z).
+
+Definition mf_step (s : mfst) (o : mfop) : mfst :=
+  match o with
+  | OpEnable t => mf_enable t s
+  | OpDisable t => mf_disable t s
+  | OpSet m => mf_set m s
+  | OpReset => mf_reset
+  | OpTick cur => snd (mf_schedule cur s)
+  end.
+
+Definition mf_run (ops : list mfop) (s : mfst) : mfst := fold_left mf_step ops s.
+
+Definition task_ok (t : Z) : bool := (0 <=? t) && (t <? 32).
+
+(* requests that leave task t switched on / switched off (task numbers of enable / disable are 0 .. 31) *)
+Definition op_keeps_on (t : Z) (o : mfop) : bool :=
+  match o with
+  | OpEnable t' => task_ok t'
+  | OpDisable t' => task_ok t' && negb (t' =? t)
+  | OpSet m => Z.testbit (u32 m) t
+  | OpReset => false
+  | OpTick _ => true
+  end.
+Definition op_keeps_off (t : Z) (o : mfop) : bool :=
+  match o with
+  | OpEnable t' => task_ok t' && negb (t' =? t)
+  | OpDisable t' => task_ok t'
+  | OpSet m => negb (Z.testbit (u32 m) t)
+  | _ => true
+  end.
+
+(* the calls one tick makes for task t: those of mframe_schedule_set(t) when t is active after the update, none otherwise *)
+Definition calls_of (t cur : Z) : list call := match fw_schedule_set t cur with FwOk cs => cs | _ => [] end.
+Definition mf_task_calls (cur : Z) (s : mfst) (t : Z) : list call :=
+  if Z.testbit (mf_tasks_after cur s) t then calls_of t cur else [].
+Definition mf_fires (cur : Z) (s : mfst) (task kind : Z) (sacch : bool) : bool :=
+  existsb (call_is kind sacch) (mf_task_calls cur s task).
+
+(* safe_fn is "fresh" at frame cur: force-safe, or not more than half a hyperframe behind cur + 4 (cur + 4 = the latest value a set
+   started now can give it).  Established by mframe_reset() and by every started set, kept by every tick, lost only after more than
+   half a hyperframe without any started set *)
+Definition mf_fresh (cur : Z) (s : mfst) : bool :=
+  (ms_safe s >=? 2715648) || ((cur + 4 - ms_safe s) mod 2715648 <? 1357824).
+
+(* executable checkers for the sweeps of Proofs/MframeSchedP.v: every sched set the tables use has 2 .. 6 frames *)
+Definition chk_set_frames : bool :=
+  forallb (fun o : option (list (Z*Z*Z*Z)) =>
+             match o with
+             | Some items => forallb (fun it : Z*Z*Z*Z => let '(k, _, _, _) := it in (2 <=? set_rv k) && (set_rv k <=? 6)) items
+             | None => true
+             end) fw_sched.
 
 (* ------------------------------------------------------------------ trxcon *)
 
@@ -172,7 +274,6 @@ Definition desc_has_handler (d : dir) (c : Z) : bool :=
    errno values (Linux): EIO 5, EAGAIN 11, ENODEV 19, EINVAL 22, EALREADY 114.  Ciphering (lchan->a5.algo) only changes burst bits
    and is left out; so is the hand-over RACH override of pull_burst (a queued RACH primitive replaces the handler, not the lchan). *)
 
-Definition s32 (x : Z) : Z := let y := u32 x in if y <? 2147483648 then y else y - 4294967296.
 Definition u64 (x : Z) : Z := x mod 18446744073709551616.
 
 (* one channel state (struct l1sched_lchan_state): active, tdma.num_proc, tdma.num_lost, tdma.last_proc *)
@@ -761,4 +862,85 @@ Definition w_c11_probe (a : list Z) : list Z :=
           if ly_period L =? 0 then [rc; -2]
           else match probe_seq L s fns with Some out => rc :: out ++ enc_states s | None => [rc; -3] end
       end
+  end.
+
+(* ------------------------------------------------------------------ wire function for scheduler histories (charness/c11_fw_run.c hist) *)
+
+(* tasks 0 .. 30 that have a table (the only ones the harness lets a history switch on) *)
+Definition fw_valid_mask : Z :=
+  fold_left (fun m t => match nth_error fw_sched (Z.to_nat t) with Some (Some _) => Z.lor m (Z.shiftl 1 t) | _ => m end) (range 0 31) 0.
+
+Fixpoint dec_ops (n : nat) (a : list Z) : option (list (Z*Z*Z)) :=
+  match n with
+  | O => match a with [] => Some [] | _ => None end
+  | S n' => match a with
+            | c :: x :: y :: tl => match dec_ops n' tl with Some r => Some ((c, x, y) :: r) | None => None end
+            | _ => None
+            end
+  end.
+
+Definition hop_ok (o : Z*Z*Z) : bool :=
+  let '(c, a, b) := o in
+  in32 a && in32 b &&
+  (if c =? 1 then (a <=? 30) && Z.testbit fw_valid_mask a && (b =? 0)
+   else if c =? 2 then (a <=? 30) && (b =? 0)
+   else if c =? 3 then (Z.ldiff a fw_valid_mask =? 0) && (b =? 0)
+   else if c =? 4 then (a =? 0) && (b =? 0)
+   else if c =? 5 then b =? 0
+   else if c =? 6 then (a <? fw_GSM_MAX_FN) && (b <=? 4000000)
+   else if c =? 7 then (Z.ldiff a fw_valid_mask =? 0) && (Z.ldiff b fw_valid_mask =? 0)
+   else if c =? 8 then b =? 0
+   else false).
+
+(* k consecutive ticks fn, fn+1, .. (mod GSM_MAX_FN); the number of tdma_schedule_set() calls is summed up *)
+Fixpoint silent_ticks (n : nat) (cur : Z) (s : mfst) (total : Z) : option (mfst * Z) :=
+  match n with
+  | O => Some (s, total)
+  | S n' =>
+      match mf_schedule cur s with
+      | (FwOk cs, s') => silent_ticks n' ((cur + 1) mod fw_GSM_MAX_FN) s' (total + Z.of_nat (length cs))
+      | _ => None
+      end
+  end.
+
+Fixpoint hist_run (ops : list (Z*Z*Z)) (s : mfst) : option (list Z) :=
+  match ops with
+  | [] => Some []
+  | (c, a, b) :: tl =>
+      if c =? 5 then
+        match mf_schedule a s with
+        | (FwOk cs, s') => match hist_run tl s' with
+                           | Some out => Some ([ms_tasks s'; ms_tgt s'; ms_safe s'] ++ enc_calls cs ++ out)
+                           | None => None
+                           end
+        | _ => None
+        end
+      else if c =? 6 then
+        match silent_ticks (Z.to_nat b) a s 0 with
+        | Some (s', tot) => match hist_run tl s' with
+                            | Some out => Some ([ms_tasks s'; ms_tgt s'; ms_safe s'; tot] ++ out)
+                            | None => None
+                            end
+        | None => None
+        end
+      else
+        hist_run tl (if c =? 1 then mf_enable a s
+                     else if c =? 2 then mf_disable a s
+                     else if c =? 3 then mf_set a s
+                     else if c =? 4 then mf_reset
+                     else if c =? 7 then mkmf a b (ms_safe s)
+                     else if c =? 8 then mkmf (ms_tasks s) (ms_tgt s) a
+                     else s)
+  end.
+
+(* [n; (code a b)*n] -> the observations of the ticks (see c11_fw_run.c); [-1]: a NULL table / modulo 0 would be hit *)
+Definition w_c11_fw_hist (a : list Z) : list Z :=
+  match a with
+  | n :: tl =>
+      if n <? 0 then [-999] else
+      match dec_ops (Z.to_nat n) tl with
+      | Some ops => if forallb hop_ok ops then match hist_run ops mf_reset with Some out => out | None => [-1] end else [-999]
+      | None => [-999]
+      end
+  | _ => [-999]
   end.
